@@ -3,7 +3,7 @@
 # checks: for each change the checks recorded as catching it in its meta.json (at most two). Writes /verif/seeded/REGRESSION.txt
 cd /verif
 PAT=${1:-.}
-OUT=/verif/seeded/REGRESSION.txt
+OUT=${OUT:-/verif/seeded/REGRESSION.txt}
 : > $OUT.tmp
 for d in $(ls seeded | grep -E "$PAT"); do
   [ -f seeded/$d/patch.diff ] || continue
